@@ -249,6 +249,11 @@ func (m *Migrator) migrateSwamp(folderPath string) {
 	// Step 0: Load swamp name from meta file
 	swampName, err := m.loadSwampNameFromMeta(folderPath)
 	if err != nil {
+		if !errors.Is(err, os.ErrNotExist) {
+			// The meta file is there but could not be read: migrating now would drop the swamp name for good.
+			m.recordFailure(folderPath, err.Error(), "load")
+			return
+		}
 		slog.Warn("Could not load swamp name from meta file",
 			"path", folderPath,
 			"error", err)
